@@ -77,7 +77,9 @@ def check(spec):
         classes.append('votes_split')
     if stats['sub_lt1']:
         classes.append('factor_lt_1')
-    if cfg['bootstrap_factor'] == 1.0:
+    if cfg.get('bootstrap_factor_lookup'):
+        classes.append('per_level_factor_lookup')
+    elif cfg['bootstrap_factor'] == 1.0:
         classes.append('factor_1')
     if stats['runner_up_checked']:
         classes.append('runner_up_checked')
@@ -93,7 +95,6 @@ def check_votes(spec, out, trace, require_trace=True):
     model = refmodel.VoteModel(spec)
     tol = model.tol
     n_iter = cfg['bootstrap_iteration']
-    factor = cfg['bootstrap_factor']
     nru = cfg['n_runners_up']
     cell2chunk, visits = parse_trace(trace)
     stats = {'decided': 0, 'ambiguous': 0, 'split': 0, 'sub_lt1': 0, 'subsets': 0, 'runner_up_checked': 0}
@@ -109,6 +110,7 @@ def check_votes(spec, out, trace, require_trace=True):
             if rec['assignment'] not in kids:
                 raise Violation('assignment_not_child', {'cell': cid, 'level': lv, 'got': rec['assignment'], 'kids': kids})
             if len(kids) >= 2:
+                factor = refmodel.factor_at(cfg, parent)
                 pj = json.dumps(list(parent) if parent is not None else None)
                 v = None
                 if trace is not None and cid in cell2chunk:
